@@ -175,7 +175,7 @@ ObjPres(p, pr) ==
 
 \* R10 a set given as one list | several arguments | a tuple | a generator | a constraint and a list |
 \*     nested lists.  NCons = number of constraints of the H-representation in harness/ro_catalogue.py.
-NCons(s) == CASE s \in {1, 2, 3, 9, 16} -> 2 [] s = 7 -> 1 [] s = 18 -> 4 [] OTHER -> 0
+NCons(s) == CASE s \in {1, 2, 3, 9, 16} -> 2 [] s = 7 -> 1 [] s \in {18, 37} -> 4 [] OTHER -> 0
 AllCons(s) == [i \in 1..NCons(s) |-> i]
 SpellSet(s, sp) ==
     CASE sp \in {"list", "tuple", "gen"} -> [how |-> sp, args |-> << [d |-> 1, cs |-> AllCons(s)] >>]
